@@ -6,6 +6,7 @@ marker headers and keyed_stream bodies of different tags, so any splice is visib
 delivered: at the client (RESPMOD, REQMOD request satisfaction) or at the origin stub (REQMOD).
 """
 import base64
+import os
 import time
 
 from hypothesis import strategies as st
@@ -59,6 +60,8 @@ def strategy(tp):
         "in_preview": st.booleans(),
         "early": st.booleans(),
         "satisfy": st.sampled_from([False, False, False, True]),
+        # a 204 where RFC 3507 forbids it (no Allow: 204 from the client, not inside a preview): rare on purpose
+        "illegal204": st.sampled_from([False] * 9 + [True]),
         "fault": fault,
         "segments": st.lists(st.one_of(st.integers(1, 80), st.integers(100, 5000)), min_size=0, max_size=5),
         "pauses": st.lists(st.sampled_from([0, 0, 1, 5]), min_size=0, max_size=5),
@@ -152,7 +155,7 @@ def execute(env, sc):
     # ---- ICAP behaviour
     def behaviour(txn):
         b = {"mode": sc["mode"], "in_preview": sc["in_preview"], "early": sc["early"], "segments": sc["segments"], "pause_ms": sc["pauses"],
-             "chunks": sc["achunks"]}
+             "chunks": sc["achunks"], "strict204": not sc.get("illegal204")}
         if sc["mode"] == "200":
             cl = "Content-Length: %d\r\n" % len(A) if (sc["a_cl"] or null_body) else ""
             if vec == "respmod" or satisfy:
@@ -274,7 +277,18 @@ def execute(env, sc):
         if len(V) <= BYPASS_ASSERT_MAX:
             r.label("bypass-clause-asserted")
             if outcome != "virgin":
-                r.fail("bypass-on-but-virgin-not-delivered", "ICAP failure before any adapted byte, bypass=on, virgin body %d bytes, outcome %s (%s)" % (len(V), outcome, where))
+                # stable classes of the failing input (they key known_findings.json); everything else is reported as it is
+                if any(t.continued for t in saw):
+                    fclass = "failure-after-100-continue"
+                elif fault["kind"] == "status" and any(t.preview is not None or t.allow204 for t in saw):
+                    fclass = "unsupported-status-while-virgin-backup-was-planned"
+                elif fault["kind"] == "abort" and fault.get("rst"):
+                    fclass = "connection-reset-by-icap-server"
+                else:
+                    fclass = "other:" + fault["kind"]
+                r.fail("bypass-on-but-virgin-not-delivered:" + fclass, "ICAP failure before any adapted byte, bypass=on, virgin body %d bytes, outcome %s (%s)" % (len(V), outcome, where))
+            else:
+                r.label("bypass-ok:" + fault["kind"] + ("-rst" if fault.get("rst") else ""))
         else:
             r.label("bypass-clause-large-body:" + str(outcome))
     if saw:
